@@ -104,6 +104,45 @@ Definition node_names_okb (nd : node) : bool :=
   && forallb (fun kv : str * value => dict_ok (snd kv)) (fields nd).
 Definition names_wfb (h : heap) : bool := forallb node_names_okb h.
 
+(* ---- the order in which the Sealer visits the entries of a dict -------------------- *)
+(* Python str order on the keys (the identifier sorts the entries the same way) *)
+Fixpoint str_leb (a b : str) : bool :=
+  match a, b with
+  | [], _ => true
+  | _ :: _, [] => false
+  | x :: a', y :: b' => if x <? y then true else if y <? x then false else str_leb a' b'
+  end.
+
+Fixpoint insert_key {A} (kv : str * A) (l : list (str * A)) : list (str * A) :=
+  match l with
+  | [] => [kv]
+  | kv' :: l' => if str_leb (fst kv) (fst kv') then kv :: l else kv' :: insert_key kv l'
+  end.
+Definition sort_keys {A} (l : list (str * A)) : list (str * A) := fold_right insert_key [] l.
+
+(* Walk.edges_value with the entries of every dict visited in sorted key order
+   (fixes/C17-2.diff: Sealer.dictitems)                                           *)
+Fixpoint edges_value_s (rel : list str) (v : value) : list edge :=
+  match v with
+  | VRef n => [(rel, n)]
+  | VList l =>
+      (fix go (i : nat) (l : list value) : list edge :=
+         match l with [] => [] | x :: l' => edges_value_s (rel ++ [dec i]) x ++ go (S i) l' end) 0%nat l
+  | VDict l =>
+      concat (map snd (sort_keys
+        ((fix go (l : list (str * value)) : list (str * list edge) :=
+            match l with [] => [] | (k, x) :: l' => (k, edges_value_s (rel ++ [k]) x) :: go l' end) l)))
+  | _ => []
+  end.
+
+(* the edges the Sealer follows (recurse_task = True) *)
+Definition seal_edges (n : nat) (nd : node) : list edge :=
+  flat_map (fun kv => edges_value_s [fst kv] (snd kv)) (fields nd)
+  ++ edges_tasks k_pre (pre nd) ++ edges_tasks k_init (init nd)
+  ++ match task nd with Some t => if Nat.eqb t n then [] else [([], t)] | None => [] end.
+(* before fixes/C17-2.diff: insertion order of the dict *)
+Definition seal_edges_insertion : nat -> node -> list edge := node_edges true.
+
 (* ---- the generated values -------------------------------------------------------- *)
 Record entry := {
   g_node : nat;            (* configuration object *)
@@ -113,6 +152,7 @@ Record entry := {
 
 Section Gen.
   Variable esc : str -> str.
+  Variable SE : nat -> node -> list edge.   (* seal_edges *)
   Variable h : heap.
   (* class table: for class c, the (argument name, file name) of its pathgenerator
      parameters, in declaration order *)
@@ -145,14 +185,14 @@ Section Gen.
   (* every value set by the Sealer when `root` is sealed with a job context whose
      directory is jobdir, in the order they are set                               *)
   Definition generated (root : nat) (jobdir : ppath) : option (list entry) :=
-    match walk h (node_edges true) cut_sealed root with
+    match walk h SE cut_sealed root with
     | None => None
     | Some evs => Some (flat_map (entries_of jobdir) evs)
     end.
 
   (* same with explicit fuel *)
   Definition generated_fuel (fuel : nat) (root : nat) (jobdir : ppath) : option (list entry) :=
-    match visit h (node_edges true) cut_sealed fuel [] root st0 with
+    match visit h SE cut_sealed fuel [] root st0 with
     | None => None
     | Some st => Some (flat_map (entries_of jobdir) (events st))
     end.
@@ -174,7 +214,7 @@ Section Gen.
   Definition expandedb (n : nat) : bool :=
     match nth_error h n with Some _ => negb (cut_sealed n) | None => false end.
   Definition unamb_nodeb (n : nat) : bool :=
-    let es := filter (fun e => expandedb (snd e)) (out_edges h (node_edges true) n) in
+    let es := filter (fun e => expandedb (snd e)) (out_edges h SE n) in
     forallb (fun e1 => negb (is_nil (fst e1)) &&
                        forallb (fun e2 => implb (is_prefix (fst e1) (fst e2)) (edge_eqb e1 e2)) es) es.
   Definition unambb : bool := forallb unamb_nodeb (seq 0 (length h)).
@@ -193,7 +233,7 @@ Section Gen.
   (* every key pushed below an expanded node gives a plain segment *)
   Definition keys_plainb : bool :=
     forallb (fun n => if expandedb n
-                      then forallb (fun e : edge => forallb (fun k => plain (esc k)) (fst e)) (out_edges h (node_edges true) n)
+                      then forallb (fun e : edge => forallb (fun k => plain (esc k)) (fst e)) (out_edges h SE n)
                       else true) (seq 0 (length h)).
   Definition files_plainb : bool :=
     forallb (fun c => forallb (fun af : str * str => plain (snd af)) c) gens.
